@@ -135,17 +135,22 @@ theorem procLookup_clean (s : St) (c : Ctx) (args : Bytes) (hc : HandlesClean s)
         split
         · exact hc
         · rename_i n hn
+          have keep : ∀ (t : St) (k : Attrs → Outcome), HandlesClean t → HandlesClean (lookupDirAttr t c.now n k).1 := by
+            intro t k ht x hx
+            rw [lookupDirAttr_fst, getAttrOr_hs] at hx
+            exact ht x hx
           split
-          · exact hc
+          · exact keep s _ hc
           · split
             · rename_i s1 st hl
               have := lookupPath_hs s c.now (joinName n.path name); rw [hl] at this
-              intro x hx; rw [this] at hx; exact hc x hx
+              exact keep s1 _ (by intro x hx; rw [this] at hx; exact hc x hx)
             · rename_i s1 ln hl
               have hhs := lookupPath_hs s c.now (joinName n.path name); rw [hl] at hhs
               have hc1 : HandlesClean s1 := by intro x hx; rw [hhs] at hx; exact hc x hx
               have hpath := lookupPath_path hl
               simp only
+              apply keep
               apply allocate_clean s1 ln hc1
               rw [hpath]
               exact joinName_clean n.path name (nodeOf_clean hc hn) (by simpa using hv)
